@@ -46,6 +46,7 @@ int (* vk_on_bind)(struct vsock *);
 void (* vk_on_close)(struct vsock *);
 const char * vk_block_oracle;
 int vk_bare_err;
+int vk_getsockopt_fail_at = -1, vk_close_fail_at = -1;
 void (* vk_on_recv)(struct vsock *, long, int);
 const void * vk_last_recv_buf;
 size_t vk_last_recv_len;
@@ -761,6 +762,13 @@ __wrap_getsockopt(int fd, int level, int name, void * val, socklen_t * len)
 		errno = EBADF;
 		return (-1);
 	}
+	if (vk_getsockopt_fail_at >= 0 && (int)vk_stats.getsockopt_calls++ == vk_getsockopt_fail_at) {
+		/* the system call itself fails (kernel out of buffers): the pending socket error stays unread */
+		vk_stats.getsockopt_failed++;
+		TR(0xA8, fd, ENOBUFS, "getsockopt(fd=%d, SO_ERROR) -> -1 ENOBUFS (injected)", fd);
+		errno = ENOBUFS;
+		return (-1);
+	}
 	if (name == SO_ERROR && *len >= sizeof(int)) {
 		*(int *)val = s->so_error;
 		TR(0xA6, fd, s->so_error, "getsockopt(fd=%d, SO_ERROR) -> %d", fd, s->so_error);
@@ -852,6 +860,13 @@ __wrap_close(int fd)
 		vk_on_close(s);
 	s->closed_by_app = 1;
 	s->used = 0;
+	if (vk_close_fail_at >= 0 && (int)vk_stats.close_calls++ == vk_close_fail_at) {
+		/* close(2) reports an error (EIO, EINTR) although the descriptor is gone, as on Linux */
+		vk_stats.close_failed++;
+		TR(0xAC, fd, EIO, "close(fd=%d) -> -1 EIO (injected; the descriptor is closed all the same)", fd);
+		errno = EIO;
+		return (-1);
+	}
 	return (0);
 }
 
